@@ -2,6 +2,7 @@ package pac
 
 import (
 	"bytes"
+	"errors"
 
 	"github.com/jcmturner/rpc/v2/mstypes"
 )
@@ -45,8 +46,14 @@ func (k *UPNDNSInfo) Unmarshal(b []byte) (err error) {
 	if err != nil {
 		return
 	}
-	ub := mstypes.NewReader(bytes.NewReader(b[k.UPNOffset : k.UPNOffset+k.UPNLength]))
-	db := mstypes.NewReader(bytes.NewReader(b[k.DNSDomainNameOffset : k.DNSDomainNameOffset+k.DNSDomainNameLength]))
+	// offsets and lengths are 16 bit values taken from the input: add them as int (no wrap-around) and check them
+	uo, ue := int(k.UPNOffset), int(k.UPNOffset)+int(k.UPNLength)
+	do, de := int(k.DNSDomainNameOffset), int(k.DNSDomainNameOffset)+int(k.DNSDomainNameLength)
+	if ue > len(b) || de > len(b) {
+		return errors.New("UPN_DNS_INFO name offset and length are outside the buffer")
+	}
+	ub := mstypes.NewReader(bytes.NewReader(b[uo:ue]))
+	db := mstypes.NewReader(bytes.NewReader(b[do:de]))
 
 	u := make([]rune, k.UPNLength/2, k.UPNLength/2)
 	for i := 0; i < len(u); i++ {
